@@ -123,10 +123,18 @@ pub fn run(rep: &mut Report) {
         let degenerate = j == 0. || j == 1.;
         let tt = if n >= 5000 { (t1 / 8).max(500) } else { t1 };
         let enough = |p: f64| (tt as f64) * (*m as f64 * p.min(1. - p)).min(1.) >= 400.;
-        let targets = vec![
-            Target::new("collision_fraction", j, if degenerate { Kind::Exact } else if enough(j) { Kind::TwoSided } else { Kind::Info }),
-            Target::new("squared_error", j * (1. - j) / *m as f64, if degenerate { Kind::Exact } else if enough(j) { Kind::Upper } else { Kind::Info }),
-        ];
+        // disjoint sets: integer sketches hold item hashes (equal only for equal items), but a float sketch holds values and two
+        // different items can legitimately round to the same f32/f64 value at a position: a small allowance instead of "exactly 0"
+        let float_kind = matches!(kind, UKind::SmhF32 | UKind::SmhF64 | UKind::SmhF64NoHash);
+        let coincidence = if matches!(kind, UKind::SmhF32) { 1e-4 } else { 1e-9 };
+        let targets = if j == 0. && float_kind {
+            vec![Target::new("collision_fraction", coincidence, Kind::Upper), Target::new("squared_error", coincidence, Kind::Upper)]
+        } else {
+            vec![
+                Target::new("collision_fraction", j, if degenerate { Kind::Exact } else if enough(j) { Kind::TwoSided } else { Kind::Info }),
+                Target::new("squared_error", j * (1. - j) / *m as f64, if degenerate { Kind::Exact } else if enough(j) { Kind::Upper } else { Kind::Info }),
+            ]
+        };
         let seed = subseed(rep.seed, "C03/S", &[ci as u64]);
         let kind = *kind;
         let m = *m;
